@@ -65,7 +65,8 @@ Proof.
   assert (Hrest : mx_prop_ev c h rest = true).
   { destruct (code =? 2); [apply andb_true_iff in H; apply H|].
     destruct (code =? 3); [apply andb_true_iff in H; apply H|].
-    destruct (code =? 5); [exact H|discriminate]. }
+    destruct (code =? 5); [exact H|].
+    destruct (code =? 6); [exact H|discriminate]. }
   split; [exact Hrest|].
   intros pre a. split.
   - intros [(Hh & Hn)|Hh].
